@@ -363,6 +363,7 @@ func runC02(c *Check) {
 	ruleP2PCursor(c, p)
 	c.Doc("C02-R9", "EO: in the sync loop an event's hash is marked seen only after the sync attempt of the same iteration returned without error (a seen mark is persisted with the cache and makes every re-delivery a duplicate: set before a failed attempt it leaves the block unapplied for good).")
 	ruleSeenOnlyAfterSyncAttempt(c, p, steps)
+	ruleApplyStepNilMeansCaughtUp(c, p, "C02-R16", steps)
 	ruleMarksAfterItems(c, p, "C02-R10")
 	ruleSeenCensus(c, p, "C02-R12", steps)
 	c.Doc("C02-R13", "= C05-R2: on every start the chain height is raised to the persisted state's height (the apply step writes block, state, height in that order: a stop between the state and the height write leaves the store height one behind; the sync loop picks the next block by the store height and validates it against the state, so without the reconciliation every re-delivery of that block fails validation and the node gives up at every start).")
@@ -649,4 +650,49 @@ func ruleSeenCensus(c *Check, p *Prog, rule string, steps []*ssa.Function) {
 		c.Unk(rule, "seen-marks", "", "", "anchor lost: no call of the seen-mark setter found")
 	}
 	c.MinInstances(rule, 4)
+}
+
+// ruleApplyStepNilMeansCaughtUp (C02-R16 / C05-R12): the sync loop reads a nil return of the apply
+// step as "this event has been dealt with" and marks it seen — a mark that is persisted with the
+// cache and turns every re-delivery into a duplicate. The apply step therefore returns nil only
+// through the edge that shows a part of the next block missing from the caches (everything
+// applicable has been applied); a stop request, or anything else that ends the attempt early, is
+// an error return, which leaves the event unmarked.
+func ruleApplyStepNilMeansCaughtUp(c *Check, p *Prog, rule string, steps []*ssa.Function) {
+	c.Doc(rule, "EO: every nil return of the apply step is behind the nil edge of a cache lookup of the next height (nothing more can be applied); in particular the stop-request exit returns an error, so the triggering event is not marked seen without having been applied.")
+	n := 0
+	for _, step := range steps {
+		g := BuildECFG(p, step, ExpandOpts{MaxDepth: 0})
+		c.NoteGraph(g)
+		missing := g.Select(EdgeWhere(func(t *Term, pol bool, _ *Node) bool {
+			t, pol = normFact(t, pol)
+			if t.Op != "bin" || len(t.Args) != 2 || t.Args[1].Name != "nil" {
+				return false
+			}
+			if !((t.Name == "==" && pol) || (t.Name == "!=" && !pol)) {
+				return false
+			}
+			return p.DeepContains(t.Args[0], func(x *Term) bool {
+				return x.Op == "call" && strings.HasSuffix(genericName(x.Name), "pkg/cache.Cache[_]).GetItem")
+			}, 2)
+		}))
+		var nilExits []*Node
+		for _, x := range g.Exits {
+			if g.ExitClass(x) != rcA {
+				nilExits = append(nilExits, x)
+			}
+		}
+		if len(missing) == 0 || len(nilExits) == 0 {
+			c.Unk(rule, fnShort(step)+" ⟂ nil only when caught up", fnName(step), "", fmt.Sprintf("anchor lost: %d missing-part edges, %d non-error returns", len(missing), len(nilExits)))
+			continue
+		}
+		n++
+		c.Decide(rule, fnShort(step)+" ⟂ nil only when caught up", fnName(step), p.InstrPos(missing[0].In),
+			"the apply step reports success only after finding the next block incomplete in the caches",
+			"the apply step can return nil without having found the next block incomplete (for example on the stop request): the sync loop takes nil for \"handled\" and marks the triggering event seen; the mark is saved with the cache, and after the restart every re-delivery of that event is dropped as a duplicate before the apply step is reached — both parts of the block are cached, and it is never applied", g,
+			g.PathAvoiding([]*Node{g.Entry}, nodeSet(nilExits), nodeSet(missing)))
+	}
+	if n == 0 {
+		c.Unk(rule, "anchor-count", "", "", "anchor lost: no apply step decided")
+	}
 }
